@@ -73,6 +73,15 @@ def build_go(names, race=False):
         return outs
 
 
+def binaries_of(P):
+    """The harness binaries a property's drivers live in (a driver may be given as "binary:driver")."""
+    out = [P["binary"]]
+    for spec in P["drivers"]:
+        if ":" in spec and spec.split(":", 1)[0] not in out:
+            out.append(spec.split(":", 1)[0])
+    return out
+
+
 def all_generated():
     seen, out = set(), []
     for P in props.PROPS.values():
@@ -152,10 +161,24 @@ def coqc_file(path, timeout=1500):
     return run(["coqc", "-Q", COQ, "NRI", "-w", "-notation-overridden", os.path.basename(path)], cwd=os.path.dirname(path), timeout=timeout)
 
 
-def print_assumptions(pid, scratch):
-    """Returns {theorem: [] (closed) | [axioms...]} for Properties/<pid>.v, re-checked on every run."""
+def property_files(pid, P):
+    """Properties/<pid>.v plus the shared property files named in props "extra_props" (e.g. Properties/Builders.v,
+    of which the theorems called <pid>_* belong to this property)."""
+    return ["Properties/%s.v" % pid] + list(P.get("extra_props", []))
+
+
+def property_theorems(pid, P):
     ths = theorems_of("Properties/%s.v" % pid)
-    src = "From NRI Require Import Properties.%s.\n" % pid
+    for f in P.get("extra_props", []):
+        ths += [t for t in theorems_of(f) if t.startswith(pid + "_")]
+    return ths
+
+
+def print_assumptions(pid, scratch, P=None):
+    """Returns {theorem: [] (closed) | [axioms...]} for the property's theorems, re-checked on every run."""
+    P = P or {}
+    ths = property_theorems(pid, P)
+    src = "".join("From NRI Require Import %s.\n" % f[:-2].replace("/", ".") for f in property_files(pid, P))
     for t in ths:
         src += 'Goal True. idtac "@@BEGIN %s". Abort.\nPrint Assumptions %s.\nGoal True. idtac "@@END". Abort.\n' % (t, t)
     path = os.path.join(scratch, "Assume_%s.v" % pid)
@@ -237,11 +260,12 @@ def explore(pid, P, tier, seed, scratch, ok, tag=""):
     stats_all, shards = [], []
     race = tier == "thorough" and P.get("race")
     if race:
-        build_go([P["binary"]], race=True)
-    for drv in P["drivers"]:
+        build_go(binaries_of(P), race=True)
+    for spec in P["drivers"]:
+        binary, drv = (spec.split(":", 1) if ":" in spec else (P["binary"], spec))   # "binary:driver" or "driver"
         out = os.path.join(scratch, drv + tag)
         os.makedirs(out)
-        exe = os.path.join(BUILD, P["binary"] + ("-race" if race else ""))
+        exe = os.path.join(BUILD, binary + ("-race" if race else ""))
         cmd = [exe, "-out", out, "-seed", str(seed), "-tier", tier, "-repo", REPO, drv]
         env = goenv()
         env["VERIF_PROPERTY"] = pid
@@ -358,18 +382,18 @@ def decide(pid, P, tier, seed, scratch, t0, replay_sel):
 
     # -- 1. translators + proofs
     regen_generated(all_generated())
-    build_go([P["binary"]])
+    build_go(binaries_of(P))
     forbidden = scan_forbidden()
-    targets = ["Properties/%s.vo" % pid] + [m.replace(".", "/") + ".vo" for m in P.get("run_modules", [])]
+    targets = [f + "o" for f in property_files(pid, P)] + [m.replace(".", "/") + ".vo" for m in P.get("run_modules", [])]
     ok, mlog = make_targets(targets)
-    theorems = theorems_of("Properties/%s.v" % pid)
+    theorems = property_theorems(pid, P)
     assum, discharged, proofs_ok = {}, 0, ok
     broken = []
     if not ok:
         errs = re.findall(r'File "\./([^"]+)", line (\d+).*?\n(Error:.*?)(?:\n\n|\nmake)', mlog, flags=re.S)
         broken = ["%s:%s %s" % (f, l, e.replace("\n", " ")[:300]) for f, l, e in errs] or [mlog[-1500:]]
     else:
-        assum, alog = print_assumptions(pid, scratch)
+        assum, alog = print_assumptions(pid, scratch, P)
         if assum is None:
             proofs_ok = False
             broken = ["Print Assumptions failed: " + alog[-1000:]]
